@@ -406,7 +406,9 @@ func (x *Exec) mergeValue(name string, live []*State, get func(*State) Value) Va
 	case FuncV:
 		for _, s := range live[1:] {
 			if !sameValue(get(s), v0) {
-				x.abort("merge of different function values (%s)", name)
+				// different function values on the paths: the merged value is an unknown function
+				// (calls through it use the funcval contract of the variable or field)
+				return FuncV{Term: x.fc.fresh(name, "Int")}
 			}
 		}
 		return v0
